@@ -1386,7 +1386,7 @@ def median_of_labels(image, labels, indices):
         return np.array([np.nan] * len(indices))
     index = np.lexsort((image, labels))
     labels, image = labels[index], image[index]
-    counts = np.bincount(labels)
+    counts = np.bincount(labels, minlength=len(indices))
     last = np.cumsum(counts)
     first = np.hstack(([0], last[:-1]))
     middle_low = first + ((counts - 1) // 2).astype(int)
